@@ -402,6 +402,14 @@ pub fn static_checks(meta: &Meta, report: &mut Report) {
         });
     };
     report.count("modules_x_capacities_checked", 1);
+    if meta.uninit_size_of < meta.max_size {
+        f(
+            "C02",
+            "record-smaller-than-published-capacity",
+            format!("RecordUninitialized<{}>: size {} < MAX_SIZE {}", meta.cap, meta.uninit_size_of, meta.max_size),
+            report,
+        );
+    }
     for (v, vm) in meta.variants.iter().enumerate() {
         report.count("record_types_measured", 1);
         if vm.size_of != meta.uninit_size_of || vm.align_of != meta.uninit_align_of {
@@ -445,6 +453,19 @@ pub fn static_checks(meta: &Meta, report: &mut Report) {
                     format!(
                         "CappedRecord{}: align {}, field `{}`: {} align {}",
                         v, vm.align_of, fm.name, fm.ty, fm.real_align
+                    ),
+                    report,
+                );
+            }
+            // the uninitialised record is one of the generated record types too: storage that is
+            // handed out as that type must be aligned for whatever variant is built in it
+            if fm.real_align != 0 && meta.uninit_align_of % fm.real_align != 0 {
+                f(
+                    "C02",
+                    "record-alignment-not-a-multiple-of-field-alignment",
+                    format!(
+                        "RecordUninitialized<{}>: align {}, field `{}` of variant {}: {} align {}",
+                        meta.cap, meta.uninit_align_of, fm.name, v, fm.ty, fm.real_align
                     ),
                     report,
                 );
